@@ -687,3 +687,117 @@ def extract_all_visits_every_member(F, S):
     else:
         out.append(bad("R-MUSTCALL", inst, fn.loc(fn.body), fn.qn, req, "the loop does not run from 0 to GetCount(), the extraction is conditional, or the loop can be left early"))
     return out
+
+
+# ------------------------------------------------------------------------------------------
+def clamped_to_remaining(F, S, scope, functions=None):
+    """R-TAINT (clamp): a loader never cuts an extent the file announces down to what the stream still holds
+    (`min(announced, Length() - Position())`, `announced < left ? announced : left`): with the clamp the read that follows can
+    no longer fail, so a file truncated inside the announced extent is accepted and delivered short instead of refused.
+    (The stream classes' own ReadPartial, whose contract is the clamp, are outside the scope.) Returns (obligations, sites)."""
+    from .flow import subterms
+    out = []
+    n = 0
+
+    def remaining(fn, i):
+        t = fn.xterm(i)
+        for _ in range(3):
+            t2 = fn.through_locals_at(t, i)
+            if t2 == t:
+                break
+            t = t2
+        for st in subterms(t):
+            if st[0] == "call" and st[1].startswith("OP2Utility::Stream::") and st[1].split("::")[-1] in ("Position", "Length"):
+                return st
+            if st[0] == "mem" and st[2] in ("m_ArchiveFileSize",):
+                return st
+        return None
+    fns = functions if functions is not None else [f for f in F.functions.values() if any(x in f.file for x in scope) and "/Stream/" not in f.file]
+    for fn in sorted(fns, key=lambda f: f.key):
+        if not fn.cfg or fn.d.get("implicit"):
+            continue
+        for nd in fn.nodes:
+            ops = None
+            if nd["k"] in CALLS and (nd.get("fq") or "") in ("std::min", "std::max") and len(nd.get("args", [])) >= 2:
+                ops = nd["args"][:2]
+            elif nd["k"] == "ConditionalOperator":
+                ks = fn.kids(nd["id"])
+                ops = ks[1:3] if len(ks) == 3 else None
+            if not ops:
+                continue
+            n += 1
+            hit = [r for r in (remaining(fn, o) for o in ops) if r is not None]
+            if hit and len(hit) < len(ops):
+                inst = "%s#clamped:%s" % (fn.qn, fmt_term(fn.term(nd["id"])))
+                out.append(bad("R-TAINT", inst, fn.loc(nd["id"]), fn.qn,
+                               "an extent announced by the file is used as announced (the read refuses a file that ends early)",
+                               "one alternative is what the stream has left (%s): a file cut short inside the announced extent is accepted and delivered short" % fmt_term(hit[0])))
+    return out, n
+
+
+def clamp_obligations(F, S, run, scope):
+    o, n = clamped_to_remaining(F, S, scope)
+    run.add(o)
+    fx = [f for f in F.fixture_functions.values() if f.qn == "fixture::ReadClamped"]
+    hit = bool(fx) and any(x.status == "violated" for x in clamped_to_remaining(F, S, [], functions=fx)[0])
+    run.fixture("fixtures/raw_read.cpp: a buffer sized min(announced, Length() - Position()) is reported by R-TAINT(clamp)", hit)
+
+
+# ------------------------------------------------------------------------------------------
+def unchecked_find_positions(F, S, scope, functions=None):
+    """R-TAINT (npos): the position a std::string search reports (find, rfind, find_first_of, ...) is not used in arithmetic
+    unless "not found" (npos, the largest size_t) has been excluded on the way: `end + 1` wraps to 0 for npos, and a splitting
+    loop that advances by it starts over for ever on data without the separator. Returns (obligations, sites)."""
+    from .flow import Engine, mentions
+    NPOS = ("const", (1 << 64) - 1)
+    FIND = ("find", "rfind", "find_first_of", "find_last_of", "find_first_not_of", "find_last_not_of")
+    out = []
+    n = 0
+    fns = functions if functions is not None else [f for f in F.functions.values() if any(x in f.file for x in scope)]
+    for fn in sorted(fns, key=lambda f: f.key):
+        if not fn.cfg or fn.d.get("implicit"):
+            continue
+        finds = [nd for nd in fn.nodes if nd["k"] == "CXXMemberCallExpr" and nd.get("fname") in FIND and (nd.get("mrec") or "").startswith("std::basic_string")]
+        if not finds:
+            continue
+        eng = Engine(F, S)
+        eng.analyze(fn, frozenset())
+        for fd in finds:
+            names = {fn.term(fd["id"])}
+            for nd in fn.nodes:
+                if nd["k"] == "DeclStmt":
+                    for d in nd.get("decls", []):
+                        if "init" in d and "d" in d and fn.strip(d["init"]) == fd["id"]:
+                            names.add(("var", d["n"], d["d"]))
+                elif nd["k"] == "BinaryOperator" and nd.get("op") == "=" and fn.strip(fn.kids(nd["id"])[1]) == fd["id"]:
+                    names.add(fn.term(fn.kids(nd["id"])[0]))
+            for nd in fn.nodes:
+                if nd["k"] not in ("BinaryOperator", "CompoundAssignOperator") or nd.get("op") not in ("+", "-", "+=", "-=", "*"):
+                    continue
+                ks = fn.kids(nd["id"])
+                used = [v for v in names if any(fn.term(k) == v for k in ks)]
+                if not used:
+                    continue
+                n += 1
+                v = used[0]
+                site = final_site_facts(eng, fn, nd["id"])
+                if site is None:
+                    continue
+                inst = "%s#find-position:%s" % (fn.qn, fmt_term(fn.term(nd["id"])))
+                req = "`not found` (npos) is excluded before the reported position is used in arithmetic"
+                known = any((f[0] == "!=" and v in (f[1], f[2]) and NPOS in (f[1], f[2])) or
+                            (f[0] in ("<", "<=") and f[1] == v and f[2] != NPOS) for f in site)
+                if known:
+                    out.append(ok("R-TAINT", inst, fn.loc(nd["id"]), fn.qn, req, "a test against npos / an upper bound dominates the use"))
+                else:
+                    out.append(bad("R-TAINT", inst, fn.loc(nd["id"]), fn.qn, req,
+                                   "%s may be npos here: the arithmetic wraps (npos + 1 == 0) - on data without the searched character the loop that advances by it never ends" % fmt_term(v)))
+    return out, n
+
+
+def find_position_obligations(F, S, run, scope):
+    o, n = unchecked_find_positions(F, S, scope)
+    run.add(o)
+    fx = [f for f in F.fixture_functions.values() if f.qn == "fixture::SplitNames"]
+    hit = bool(fx) and any(x.status == "violated" for x in unchecked_find_positions(F, S, [], functions=fx)[0])
+    run.fixture("fixtures/raw_read.cpp: `start = table.find(...) + 1` without an npos test is reported by R-TAINT(npos)", hit)
